@@ -133,6 +133,8 @@ func c01a(c *Ctx, r *Report, st *Staged) {
 			"every transition is appended to the group of its source state, and only to it",
 			"the grouping loop does not append every transition exactly to the group of its own source state (tr.q == q)")
 	}
+	// the accept cell (reduce by rule 0) exists on the end marker only
+	c03EndMarker(c, r, clause)
 	// reader: all four Go skeletons
 	for _, sk := range quickSkeletons(st) {
 		ir, err := goDriverIR(sk)
